@@ -69,6 +69,20 @@ def run(ctx):
             ctx.notes.append("python3-vt could not load polygon.py: " + p.stderr[-200:])
     except FileNotFoundError:
         ctx.notes.append("python3-vt not available: 3.11 clause not run")
+    # ---- deterministic corpus: finding K5 (derived quantities are not exact once two coordinate denominators multiply beyond 10^9)
+    from shapepy import Primitive
+    k5 = [(F(1, 99991), F(0)), (F(1), F(1, 99989)), (F(1, 7), F(99990, 99991))]
+    S5 = Primitive.polygon(k5)
+    ctx.case("large-denominator-area", "K5")
+    exp5 = F(drv.ask(f"moment S {core.epoly(k5)} 0 0"))
+    dprod = max(a.denominator * b.denominator for p in k5 for a in p for q in k5 for b in q)
+    ctx.check([tuple(v) for v in S5.jordans[0].vertices] == k5, "vertices with denominators <= 10^9 were changed", {"vertices": k5})
+    ctx.check(IntegrateShape.area(S5) == exp5, "area of a rational polygon is not the exact rational", {"vertices": k5}, exp5, IntegrateShape.area(S5),
+              sig={"family": "large-denominator", "pairwise_den_product_gt_1e9": dprod > 10 ** 9})
+    small = [(F(1, 9991), F(0)), (F(1), F(1, 9989)), (F(1, 7), F(9990, 9991))]
+    ctx.case("large-denominator-area", "below-threshold")
+    ctx.check(IntegrateShape.area(Primitive.polygon(small)) == F(drv.ask(f"moment S {core.epoly(small)} 0 0")), "area of a rational polygon is not the exact rational", {"vertices": small},
+              sig={"family": "large-denominator", "pairwise_den_product_gt_1e9": False})
     # ---- (2) operators, crossings, moments on rational polygons (int / Fraction / mixed)
     for it in range(25 if ctx.quick else 800):
         vss = impl.leaf_family(ctx, 2, pinv=0.2)
